@@ -9,6 +9,8 @@ package main
 //  * (more below, each block says which theorem it serves).
 
 import (
+	"fmt"
+
 	"github.com/zclconf/go-cty/cty"
 )
 
@@ -25,6 +27,59 @@ var c13IncoherentPairs = [][2]cty.Value{
 func c13D13(ctx *Ctx) {
 	c13D13Incoherent(ctx)
 	c13D13Index(ctx)
+	c13D13Compose(ctx)
+}
+
+// The set functions compose (C13.sethaselement_of_setop): sethaselement(setop(a, b), q) must be the
+// union / intersection / difference / symmetric difference of what an Equals scan of the two member
+// lists answers for q — evaluated on the REAL functions for every q drawn from a, from b, and fresh.
+func c13D13Compose(ctx *Ctx) {
+	opts := ValOpts{Null: true, Small: true, NoInf: true}
+	etys := []cty.Type{cty.Number, cty.String, cty.Bool, cty.Tuple([]cty.Type{cty.Number, cty.String}), cty.List(cty.String),
+		cty.Object(map[string]cty.Type{"a": cty.String}), cty.Map(cty.Number)}
+	ops := []string{"setunion", "setintersection", "setsubtract", "setsymmetricdifference"}
+	n := ctx.N(60, 1500)
+	for i := 0; i < n; i++ {
+		ety := etys[ctx.R.Intn(len(etys))]
+		a := c13Set(ety, c13Members(ctx, ety, ctx.R.Intn(5), opts))
+		b := c13Set(ety, c13Members(ctx, ety, ctx.R.Intn(5), opts))
+		probes := append(append([]cty.Value{}, c13Slice(a)...), c13Slice(b)...)
+		probes = append(probes, genVal(ctx.R, ety, 1, opts))
+		for _, name := range ops {
+			res := c13Invoke(name, []cty.Value{a, b})
+			if res.class != "ok" || !res.val.IsWhollyKnown() {
+				ctx.Tag("d13:compose:setop-" + res.class)
+				continue
+			}
+			for _, q := range probes {
+				if !q.IsWhollyKnown() || q.IsNull() {
+					continue // a null needle is outside sethaselement's domain (the parameter does not allow null)
+				}
+				inA, inB := c13Member(c13Slice(a), q), c13Member(c13Slice(b), q)
+				var want bool
+				switch name {
+				case "setunion":
+					want = inA || inB
+				case "setintersection":
+					want = inA && inB
+				case "setsubtract":
+					want = inA && !inB
+				default:
+					want = inA != inB
+				}
+				args := []cty.Value{res.val, q}
+				h := c13Case(ctx, "sethaselement", args, false)
+				key := "compose " + name + " " + c13EncArgs([]cty.Value{a, b, q})
+				ctx.Eval(key, true)
+				ctx.Tag(fmt.Sprintf("d13:compose:%s:%v", name, want))
+				if h.class != "ok" || !h.val.RawEquals(cty.BoolVal(want)) {
+					ctx.Fail(Failure{Site: "compose", Sig: "compose:" + name,
+						What:  fmt.Sprintf("sethaselement(%s(a, b), q) differs from the reference over plain slices (want %v)", name, want),
+						Input: key, GoLit: "stdlib.SetHasElement(" + c13GoLit(name, []cty.Value{a, b}) + ", " + q.GoString() + ")", Outcome: h.wire()})
+				}
+			}
+		}
+	}
 }
 
 // index / hasindex on their whole key domain (C13.index_list_any_number, index_tuple, index_map):
